@@ -196,6 +196,15 @@ def _parse_int_prop(raw):
         return None
 
 
+# directed histories, run first: deleting the CURRENT snapshot and committing again; deleting interior / oldest snapshots and committing
+# again; several deletes; expiry at equal timestamps
+HIST_SCRIPTS = [
+    ["append", "append", "append", "delcur", "append", "delcur", "delcur", "append", "append"],
+    ["append", "append", "append", "deloldest", "append", "delsnap", "append", "delcur", "append"],
+    ["append", "delfiles", "append", "delfiles", "append+expire", "append", "delcur", "append"],
+]
+
+
 def _histories(ctx, rep, model_ok):
     rng = ctx.rng("hist")
     base = scratch_dir("c15-")
@@ -209,9 +218,10 @@ def _histories(ctx, rep, model_ok):
                 idmap, ops, trace = {}, [], []
                 next_id = 1
                 known_paths = []
-                steps = rng.randint(3, 8 if not ctx.thorough else 20)
+                script = HIST_SCRIPTS[hi] if hi < len(HIST_SCRIPTS) else None
+                steps = len(script) if script else rng.randint(3, 8 if not ctx.thorough else 20)
                 for si in range(steps):
-                    kind = rng.choice(["append", "append", "append", "append+expire", "delfiles", "expire", "delsnap", "retention", "prevmax"])
+                    kind = script[si] if script else rng.choice(["append", "append", "append", "append+expire", "delfiles", "expire", "delsnap", "delcur", "retention", "prevmax"])
                     now = rng.choice([1000, 1000, 2000, 3000, 2500, 4000, 500])
                     clock.now_ms = now
                     before_ids = {s.snapshot_id for s in t.metadata_manager.refresh().snapshots}
@@ -248,9 +258,16 @@ def _histories(ctx, rep, model_ok):
                                 tx.expire_snapshots(cutoff)
                                 tx.commit()
                             op_tok = f"exp:{cutoff}"
-                        elif kind == "delsnap":
+                        elif kind in ("delsnap", "delcur", "deloldest"):
                             ids = sorted(idmap.values())
                             victim = rng.choice(ids + [99]) if ids else 99
+                            if kind != "delsnap":
+                                md_c = t.metadata_manager.refresh()
+                                live = [s_.snapshot_id for s_ in md_c.snapshots]
+                                if kind == "delcur" and md_c.current_snapshot_id in idmap:
+                                    victim = idmap[md_c.current_snapshot_id]
+                                elif kind == "deloldest" and live and live[0] in idmap:
+                                    victim = idmap[live[0]]
                             real = [k for k, v in idmap.items() if v == victim]
                             t.snapshot_manager.delete_snapshot(real[0] if real else 123456789)
                             op_tok = f"del:{victim}"
